@@ -358,7 +358,13 @@ class Quantity:
 
         if category.__class__ is OrderedDict:
             assert unit is None
-            self._category_to_unit_and_exps = category
+            # Always keep our own `[unit, exp]` lists: the composing units may be given as tuples
+            # (ObtainQuantity accepts `[(unit, exp), ...]`), but equality compares these values and
+            # the operations edit copies of them in place.
+            self._category_to_unit_and_exps = OrderedDict(
+                (composing_category, list(unit_and_exp))
+                for (composing_category, unit_and_exp) in category.items()
+            )
             self._is_derived = True
 
             rep_and_exp: OrderedDict[Any, Any] = OrderedDict()
